@@ -3,7 +3,9 @@
 
 /// Path of an output file: `$WX_OUT/<name>` (default: current directory).
 pub fn out(name: &str) -> String {
-    format!("{}/{}", std::env::var("WX_OUT").unwrap_or_else(|_| ".".into()), name)
+    let dir = std::env::var("WX_OUT").unwrap_or_else(|_| ".".into());
+    let dir = std::path::absolute(&dir).map(|p| p.display().to_string()).unwrap_or(dir);
+    format!("{dir}/{name}")
 }
 
 /// xorshift64 — small, deterministic, good enough for case generation.
